@@ -544,6 +544,32 @@ def _incidence(tier, seed, child):
         if len(samples) < 3:
             samples.append({"table": tab.tolist()})
 
+    # incidence tables SUPPLIED to from_topology with the caller's own fill value (-1) on meshes whose faces all have the same size
+    # (the face table itself then contains no padding): they are reported padded with the standard fill value like derived ones
+    for m in (mg.quad_patch(2, 2), mg.quad_patch(3, 1, lon0=170.0, lat0=-5.0)):
+        orc = Oracle(np.asarray(m["faces"]), m["n_node"])
+        pairs = sorted(tuple(sorted(p)) for p in orc.faces_of_pair)
+        en = np.array(pairs, dtype=np.int64)
+        ef = np.full((len(pairs), 2), -1, dtype=np.int64)
+        for e, p in enumerate(pairs):
+            fs = sorted(orc.faces_of_pair[frozenset(p)] if frozenset(p) in orc.faces_of_pair else orc.faces_of_pair[p])
+            ef[e, :len(fs)] = fs
+        width = max(len(v) for v in orc.faces_of_node.values())
+        nf_tab = np.full((m["n_node"], width), -1, dtype=np.int64)
+        for n_, fs in orc.faces_of_node.items():
+            nf_tab[n_, :len(fs)] = sorted(fs)
+        distinct.add(("supplied_custom_fill", m["name"]))
+        try:
+            import uxarray as _ux
+            g = _ux.Grid.from_topology(node_lon=np.array(m["lon"], float), node_lat=np.array(m["lat"], float),
+                                       face_node_connectivity=np.array(m["faces"], dtype=np.int64), fill_value=-1,
+                                       edge_node_connectivity=en.copy(), edge_face_connectivity=ef.copy(), node_face_connectivity=nf_tab.copy())
+        except Exception as e:  # noqa: BLE001
+            rec.check(False, f"from_topology with supplied incidence tables raises {type(e).__name__}", "supplied_tables:custom_fill:uniform_faces",
+                      f"{type(e).__name__}: {e}"[:200], _desc(m["name"], m["faces"]))
+            continue
+        check_grid(rec, "supplied_tables_custom_fill", "node_face_first", m, orc, grid=g)
+
     if child is not None:
         _jit_collect(rec, child)
         jit = "main pass with numba JIT disabled (njit builders run as Python) + the quick catalogue pass repeated in a child process with JIT enabled"
